@@ -26,25 +26,36 @@ Definition rotate_if_needed (interval_s : Z) (c : ctx) (now : Z) : ctx * bool :=
        (mkCtx (c_shared c) (derive_key (c_shared c) cnt now) cnt now, true).
 
 (* one end of the session: its KeyManager context for the peer, the key its live transport session uses
-   (SessionManager::register_peer_key overwrites it on every rotation and never closes the session), and whether that
-   session is open *)
-Record endpoint := mkEnd { e_ctx : ctx; e_session_key : list Z; e_open : bool; e_interval : Z }.
+   (SessionManager::register_peer_key overwrites it on every rotation and never closes the session), whether that
+   session is open, and what perform_handshake remembers: the handshake key, when the peer's handshake was last
+   validated (handshake_state_.last_attempt) and the cool-down *)
+Record endpoint := mkEnd { e_ctx : ctx; e_session_key : list Z; e_open : bool; e_interval : Z;
+                           e_hs_key : list Z; e_last_hs : Z; e_cooldown : Z }.
 
-Definition handshake_end (priv my_pub remote_pub interval now : Z) : endpoint :=
+Definition handshake_end (priv my_pub remote_pub interval cooldown now : Z) : endpoint :=
   let k := session_key priv my_pub remote_pub in   (* = c_key (register_with_material shared material now) *)
-  mkEnd (mkCtx (derive_shared_secret priv remote_pub) k 0 now) k true (sanitize_key_rotation_interval interval).
+  mkEnd (mkCtx (derive_shared_secret priv remote_pub) k 0 now) k true (sanitize_key_rotation_interval interval) k now cooldown.
 
 (* Node::tick -> rotate_session_keys(now): rotate, and on rotation push the new key into the live session *)
 Definition tick_end (e : endpoint) (now : Z) : endpoint * bool :=
   let '(c, r) := rotate_if_needed (e_interval e) (e_ctx e) now in
-  (mkEnd c (if r then c_key c else e_session_key e) (e_open e) (e_interval e), r).
+  (mkEnd c (if r then c_key c else e_session_key e) (e_open e) (e_interval e) (e_hs_key e) (e_last_hs e) (e_cooldown e), r).
+
+(* perform_handshake for the SAME (public key, nonce) that was validated before: inside the cool-down it is acknowledged
+   without touching anything; after it the session is registered afresh (handshake key, counter 0, timed now) and the
+   key is pushed into the live session *)
+Definition rehandshake_end (e : endpoint) (now : Z) : endpoint :=
+  if now - e_last_hs e <? e_cooldown e * ns_per_s then e
+  else mkEnd (mkCtx (c_shared (e_ctx e)) (e_hs_key e) 0 now) (e_hs_key e) (e_open e) (e_interval e) (e_hs_key e) now (e_cooldown e).
 
 Record sys := mkSys { s_a : endpoint; s_b : endpoint }.
-(* who = 0: node A ticks with its clock reading `now`; otherwise node B *)
+(* who = 0 / 1: node A / B ticks with its clock reading `now`; who = 2 / 3: node A / B takes the peer's handshake again *)
 Definition step (s : sys) (op : Z * Z) : sys * bool :=
   let '(who, now) := op in
   if who =? 0 then let '(e, r) := tick_end (s_a s) now in (mkSys e (s_b s), r)
-  else let '(e, r) := tick_end (s_b s) now in (mkSys (s_a s) e, r).
+  else if who =? 1 then let '(e, r) := tick_end (s_b s) now in (mkSys (s_a s) e, r)
+  else if who =? 2 then (mkSys (rehandshake_end (s_a s) now) (s_b s), true)
+  else (mkSys (s_a s) (rehandshake_end (s_b s) now), true).
 Definition run_ops (s : sys) (ops : list (Z * Z)) : sys := fold_left (fun st op => fst (step st op)) ops s.
 
 Definition keys_agree (s : sys) : bool := list_eqb (e_session_key (s_a s)) (e_session_key (s_b s)).
@@ -52,9 +63,10 @@ Definition keys_agree (s : sys) : bool := list_eqb (e_session_key (s_a s)) (e_se
    stream cipher of C09 for the bytes) *)
 Definition delivered (s : sys) : bool := keys_agree s.
 
-Definition mutual (a b ia ib hsa hsb : Z) : sys :=
+Definition mutual_cd (a b ia ib cda cdb hsa hsb : Z) : sys :=
   let pa := compute_public a in let pb := compute_public b in
-  mkSys (handshake_end a pa pb ia hsa) (handshake_end b pb pa ib hsb).
+  mkSys (handshake_end a pa pb ia cda hsa) (handshake_end b pb pa ib cdb hsb).
+Definition mutual (a b ia ib hsa hsb : Z) : sys := mutual_cd a b ia ib 5 5 hsa hsb.
 
 (* ---- wire ---- *)
 Fixpoint w_ops (n : nat) (l : list Z) : list (Z * Z) :=
@@ -77,9 +89,10 @@ Definition run (input : list Z) : list Z :=
     let '(a, l) := w_next l in let '(b, l) := w_next l in
     let l := skipn 66 l in   (* identity seeds and peer ids: used by the implementation side only *)
     let '(ia, l) := w_next l in let '(ib, l) := w_next l in
+    let '(cda, l) := w_next l in let '(cdb, l) := w_next l in
     let '(hsa, l) := w_u64 l in let '(hsb, l) := w_u64 l in
     let '(n, l) := w_next l in
-    let s := mutual a b ia ib hsa hsb in
+    let s := mutual_cd a b ia ib cda cdb hsa hsb in
     [a; b] ++ observe s false ++ run_observe s (w_ops (Z.to_nat n) l)
   else if mode =? 2 then
     (* KeyManager alone: shared secret (32), material (len), interval, registration time, then readings *)
